@@ -76,7 +76,7 @@ def h_tofile(cname, n, chunk_bits):
     return h
 
 
-def h_file_window(cname, nbytes, via):
+def h_file_window(cname, nbytes, via, lsb0=False):
     """filename= / file handle with offset and length: exactly the selected window, or CreationError"""
     def h(K):
         import bitstring
@@ -86,14 +86,20 @@ def h_file_window(cname, nbytes, via):
         try:
             off = K.opt_int('offset', -2, total + 2)
             ln = K.opt_int('length', -2, total + 2)
-            if via == 'filename':
-                r = call(lambda: cls(filename=fn, length=ln, offset=off))
-            else:
-                hdl = F.open_handle(K, fn)
-                try:
-                    r = call(lambda: cls(hdl, length=ln, offset=off))
-                finally:
-                    hdl.close()
+            bitstring.options.lsb0 = lsb0     # the selected window is defined on the stored (msb0) bit order in both modes
+            try:
+                if via == 'filename':
+                    r = call(lambda: cls(filename=fn, length=ln, offset=off))
+                elif via == 'bytes':
+                    r = call(lambda: cls(bytes=rawbits.tobytes(), length=ln, offset=off))
+                else:
+                    hdl = F.open_handle(K, fn)
+                    try:
+                        r = call(lambda: cls(hdl, length=ln, offset=off))
+                    finally:
+                        hdl.close()
+            finally:
+                bitstring.options.lsb0 = False
             o = 0 if off is None else off
             valid = (o >= 0) and (o <= total)
             if ln is not None:
@@ -122,14 +128,18 @@ def h_file_window(cname, nbytes, via):
     return h
 
 
-def h_bytesio(cname, data):
+def h_bytesio(cname, data, lsb0=False):
     def h(K):
         import bitstring
         cls = classes()[cname]
         total = 8 * len(data)
         off = K.opt_int('offset', -2, total + 2)
         ln = K.opt_int('length', -2, total + 2)
-        r = call(lambda: cls(io.BytesIO(data), length=ln, offset=off))
+        bitstring.options.lsb0 = lsb0
+        try:
+            r = call(lambda: cls(io.BytesIO(data), length=ln, offset=off))
+        finally:
+            bitstring.options.lsb0 = False
         allbits = O.empty()
         allbits.frombytes(data)
         o = 0 if off is None else off
@@ -253,6 +263,9 @@ def conditions(tier):
                 add(f'C17.file-window[{c},{via},bytes={nb}]', h_file_window(c, nb, via), f'all {nb}-byte files x offset,length in [-2,{8 * nb + 2}] or None', setup=F.install_fakes, nbytes=nb)
         for data in ([b'\xa5\x3c'] if q else [b'', b'\xa5', b'\xa5\x3c', b'\x01\x02\x03']):
             add(f'C17.bytesio-window[{c},{data.hex() or "empty"}]', h_bytesio(c, data), f'BytesIO({data!r}) x offset,length in [-2,{8 * len(data) + 2}] or None')
+        add(f'C17.bytesio-window[{c},a53c,lsb0]', h_bytesio(c, b'\xa5\x3c', True), 'BytesIO window constructed while options.lsb0 is set')
+        for via in ('filename', 'handle', 'bytes'):
+            add(f'C17.file-window[{c},{via},bytes=2,lsb0]', h_file_window(c, 2, via, True), 'all 2-byte sources x offset,length; constructed while options.lsb0 is set', setup=F.install_fakes, nbytes=2)
         for n in ([0, 9, 16] if q else [0, 1, 8, 9, 16, 17, 24]):
             add(f'C17.tofile-readback[{c},n={n}]', h_roundtrip_file(c, n), f'all {n}-bit contents', setup=F.install_fakes, n=n)
     for dtype, w in (('uint5', 5), ('int8', 8)) if q else (('uint5', 5), ('int8', 8), ('uintle16', 16), ('hex4', 4)):
